@@ -291,6 +291,8 @@ func printSummary(cfg *checkCfg, agg *aggregate, wall float64) {
 var expectedProbes = map[string][]string{
 	"reuse": {"probe.shaper_cache_other_face_of_same_font", "probe.shaper_cache_eviction_possible", "probe.shape_after_in_place_face_change",
 		"probe.hb_buffer_reused", "probe.segmenter_reused", "probe.wrapper_reused", "probe.wrapper_paragraph_abandoned", "probe.useg_reused"},
+	"fontmapsim": {"probe.repeat_lookup_cache_enabled", "probe.lookup_after_other_lookups", "probe.cache_eviction", "probe.add_after_lookups", "probe.system_fonts_used",
+		"answered_by_step_1", "answered_by_step_2", "answered_by_step_3", "answered_by_step_4", "answered_by_step_5"},
 }
 
 // ---------------------------------------------------------------- evidence
